@@ -244,13 +244,19 @@ func (w *world) runOp(name string, idx int, o opSpec) {
 			err = w.pool.Broadcast(ctx, m, strings.Split(o.Arg, ",")...)
 		case "sendid":
 			err = w.pool.SendById(ctx, m, o.Arg)
-		case "send", "sendseq":
+		case "send", "sendseq", "sendc":
 			to := o.Arg
 			if seq != nil {
 				to = seq[k]
 			}
 			p := &fpeer{id: to}
-			err = w.pool.Send(ctx, m, func(context.Context) ([]peer.Peer, error) { return []peer.Peer{p}, nil })
+			sctx, cancel := ctx, context.CancelFunc(func() {})
+			if o.Kind == "sendc" {
+				// the caller gives up right after Send returned: whatever still waits on its behalf must stop waiting
+				sctx, cancel = context.WithCancel(ctx)
+			}
+			err = w.pool.Send(sctx, m, func(context.Context) ([]peer.Peer, error) { return []peer.Peer{p}, nil })
+			cancel()
 			if err == nil {
 				w.ev(event{Kind: "send-accepted", By: name, Msg: m.Name, Peer: to})
 			}
@@ -628,6 +634,11 @@ func scenarios(c *vk.Ctx) (out []scenario) {
 			scenario{Streams: []streamSpec{H(q)}, Ops: []opSpec{{"sendseq", "pn1,pn2,pstuck,ph", 1}, {"bcast", "t1", 1}}, Workers: 2, DialQ: 2},
 			scenario{Streams: []streamSpec{H(q), S(q)}, Ops: []opSpec{{"addtag", "s", 1}, {"bcast2", "t1,t2", 2}, {"addtag", "h", 1}}},
 		)
+		if q == 1 {
+			// two Sends to a peer whose dial never completes, both abandoned by their callers: the dial itself keeps one
+			// of the two workers, the Send waiting for that dial's outcome must give its worker back
+			out = append(out, scenario{Streams: []streamSpec{H(q)}, Ops: []opSpec{{"sendc", "pstuck", 2}, {"send", "ph", 1}}, Workers: 2, DialQ: 4})
+		}
 	}
 	if c.Thorough() {
 		for _, q := range qs {
